@@ -202,11 +202,27 @@ Notation akey := (apply_key call_ref exec_nig_single exec_nig_multi 1).
 Notation prim := (prims_exec call_ref exec_nig_single exec_nig_multi 1).
 Hypothesis Hnig : forall args, call_ref 1 args = partial_clo 1 args.
 
-Variables (ks : list value) (oc : list nat) (c2 : nat) (ko : nat).
-(* `other` (a lambda of the untranslated part) returns the remaining columns of a row *)
-Hypothesis Hother : forall r : row, call_ref ko [row_pv r] = PTuple (map PV (other oc r)).
+Variables (ks : list value) (oc : list nat) (c2 : nat).
+(* the expression that computes `other(row)`: a call of the lambda held in a variable (exec_pivot_fill) or the
+   lambda's body inlined (exec_execute_query); it reads `row` and one more variable [ovar] *)
+Variable oe : expr.
+Variable ovar : string.
+Variable oval : pv.
+Variable wide : row -> Prop.
+Hypothesis Hov_row : String.eqb ovar "row" = false.
+Hypothesis Hov_index : String.eqb ovar "index" = false.
+Hypothesis Hov_outrow : String.eqb ovar "outrow" = false.
+Hypothesis Hov_field1 : String.eqb ovar "field1" = false.
+Hypothesis Hov_group : String.eqb ovar "group" = false.
+Hypothesis Hov_pivoted : String.eqb ovar "pivoted" = false.
+Hypothesis Hov_rows : String.eqb ovar "rows" = false.
+Hypothesis Hoe : forall loc flds (r : row), wide r ->
+  lookup "row" loc = Some (row_pv r) -> lookup ovar loc = Some oval ->
+  PyMini.eval call_ref prim {| locals := loc; fields := flds |} oe =
+  Ok ({| locals := loc; fields := flds |}, PTuple (map PV (other oc r))).
 
-Definition row_ok (r : row) : Prop := (c2 < length r)%nat /\ existsb (fun k => val_eq k (cell c2 r)) ks = true.
+Definition row_ok (r : row) : Prop :=
+  ((c2 < length r)%nat /\ existsb (fun k => val_eq k (cell c2 r)) ks = true) /\ wide r.
 
 Lemma prim_setslice out i j vals : (i <= j)%nat ->
   prim "stmt:setslice" [PList (map PV out); PV (VInt (Z.of_nat i)); PV (VInt (Z.of_nat j)); PTuple (map PV vals)] =
@@ -231,12 +247,13 @@ Definition inner_body : list stmt :=
      (XBin OAdd (XBin OMul (XCallMethod (XName "keys") "index" [XIndex (XName "row") (XName "col2")]) (XName "nother"))
         (XConst (PInt 1)));
    SAssign (TName "outrow")
-     (XPrim "stmt:setslice" [XName "outrow"; XName "index"; XBin OAdd (XName "index") (XName "nother");
-                             XCall (XName "other") [XName "row"] None])].
+     (XPrim "stmt:setslice" [XName "outrow"; XName "index"; XBin OAdd (XName "index") (XName "nother"); oe])].
 
 Definition fixed (loc : env) : Prop :=
   lookup "keys" loc = Some (PList (map PV ks)) /\ lookup "col2" loc = Some (idx_pv c2) /\
-  lookup "nother" loc = Some (PInt (Z.of_nat (length oc))) /\ lookup "other" loc = Some (PRef ko).
+  lookup "nother" loc = Some (PInt (Z.of_nat (length oc))) /\ lookup ovar loc = Some oval.
+
+Ltac frame := rewrite !lookup_update_neq by (reflexivity || assumption).
 
 Definition stable (loc loc' : env) : Prop :=
   forall x, x <> "row" -> x <> "index" -> x <> "outrow" -> lookup x loc' = lookup x loc.
@@ -253,16 +270,16 @@ Lemma inner_loop : forall (group : list row) (out : list value) loc flds,
 Proof.
   induction group as [|r t IH]; intros out loc flds Hok Hfix Hout.
   - exists loc. split; [reflexivity|]. split; [exact Hout|]. intros x _ _ _. reflexivity.
-  - inversion Hok as [|? ? [Hc2 Hin] Hok']; subst.
+  - inversion Hok as [|? ? [[Hc2 Hin] Hw] Hok']; subst.
     destruct Hfix as [Hk [Hcol [Hn Ho]]].
     cbn [map for_loop fold_left]. cbn [write locals fields].
     set (loc1 := update "row" (row_pv r) loc).
     assert (Hr1 : lookup "row" loc1 = Some (row_pv r)) by apply lookup_update_eq.
-    assert (Hk1 : lookup "keys" loc1 = Some (PList (map PV ks))) by (unfold loc1; rewrite lookup_update_neq by reflexivity; exact Hk).
-    assert (Hcol1 : lookup "col2" loc1 = Some (idx_pv c2)) by (unfold loc1; rewrite lookup_update_neq by reflexivity; exact Hcol).
-    assert (Hn1 : lookup "nother" loc1 = Some (PInt (Z.of_nat (length oc)))) by (unfold loc1; rewrite lookup_update_neq by reflexivity; exact Hn).
-    assert (Ho1 : lookup "other" loc1 = Some (PRef ko)) by (unfold loc1; rewrite lookup_update_neq by reflexivity; exact Ho).
-    assert (Hout1 : lookup "outrow" loc1 = Some (PList (map PV out))) by (unfold loc1; rewrite lookup_update_neq by reflexivity; exact Hout).
+    assert (Hk1 : lookup "keys" loc1 = Some (PList (map PV ks))) by (unfold loc1; frame; exact Hk).
+    assert (Hcol1 : lookup "col2" loc1 = Some (idx_pv c2)) by (unfold loc1; frame; exact Hcol).
+    assert (Hn1 : lookup "nother" loc1 = Some (PInt (Z.of_nat (length oc)))) by (unfold loc1; frame; exact Hn).
+    assert (Ho1 : lookup ovar loc1 = Some oval) by (unfold loc1; frame; exact Ho).
+    assert (Hout1 : lookup "outrow" loc1 = Some (PList (map PV out))) by (unfold loc1; frame; exact Hout).
     set (idx := (index_of (cell c2 r) ks * length oc + 1)%nat).
     (* index = keys.index(row[col2]) * nother + 1 *)
     assert (E1 : PyMini.exec call_ref prim {| locals := loc1; fields := flds |}
@@ -277,24 +294,23 @@ Proof.
     unfold inner_body at 1. rewrite exec_block_cons. fold loc1. rewrite E1. cbn [bind].
     set (loc2 := update "index" (idx_pv idx) loc1).
     assert (Hi2 : lookup "index" loc2 = Some (idx_pv idx)) by apply lookup_update_eq.
-    assert (Hr2 : lookup "row" loc2 = Some (row_pv r)) by (unfold loc2; rewrite lookup_update_neq by reflexivity; exact Hr1).
-    assert (Hn2 : lookup "nother" loc2 = Some (PInt (Z.of_nat (length oc)))) by (unfold loc2; rewrite lookup_update_neq by reflexivity; exact Hn1).
-    assert (Ho2 : lookup "other" loc2 = Some (PRef ko)) by (unfold loc2; rewrite lookup_update_neq by reflexivity; exact Ho1).
-    assert (Hout2 : lookup "outrow" loc2 = Some (PList (map PV out))) by (unfold loc2; rewrite lookup_update_neq by reflexivity; exact Hout1).
+    assert (Hr2 : lookup "row" loc2 = Some (row_pv r)) by (unfold loc2; frame; exact Hr1).
+    assert (Hn2 : lookup "nother" loc2 = Some (PInt (Z.of_nat (length oc)))) by (unfold loc2; frame; exact Hn1).
+    assert (Ho2 : lookup ovar loc2 = Some oval) by (unfold loc2; frame; exact Ho1).
+    assert (Hout2 : lookup "outrow" loc2 = Some (PList (map PV out))) by (unfold loc2; frame; exact Hout1).
     assert (E2 : PyMini.exec call_ref prim {| locals := loc2; fields := flds |}
                    (SAssign (TName "outrow")
-                      (XPrim "stmt:setslice" [XName "outrow"; XName "index"; XBin OAdd (XName "index") (XName "nother");
-                                              XCall (XName "other") [XName "row"] None])) =
+                      (XPrim "stmt:setslice" [XName "outrow"; XName "index"; XBin OAdd (XName "index") (XName "nother"); oe])) =
                  Ok (Next {| locals := update "outrow" (PList (map PV (step_row out r))) loc2; fields := flds |})).
-    { repeat (progress (cbn [PyMini.exec PyMini.eval bind read write locals fields idx_pv PInt do_call
+    { repeat (progress (cbn [PyMini.exec PyMini.eval bind read write locals fields idx_pv PInt
                              binop1 binop_builtin];
-                        rewrite ?Hi2, ?Hr2, ?Hn2, ?Ho2, ?Hout2, ?Hother)).
+                        rewrite ?Hi2, ?Hn2, ?Hout2, ?(Hoe loc2 flds r Hw Hr2 Ho2))).
       rewrite <- Nat2Z.inj_add. unfold idx_pv, PInt.
       rewrite (prim_setslice out idx (idx + length oc) (other oc r)) by lia.
       reflexivity. }
     rewrite exec_block_cons, E2. cbn [bind exec_block].
     destruct (IH (step_row out r) (update "outrow" (PList (map PV (step_row out r))) loc2) flds Hok') as [loc' [EL [HR ST]]].
-    + unfold fixed, loc2, loc1. rewrite !lookup_update_neq by reflexivity. repeat split; assumption.
+    + unfold fixed, loc2, loc1. frame. repeat split; assumption.
     + apply lookup_update_eq.
     + exists loc'. split; [exact EL|]. split; [exact HR|].
       intros x N1 N2 N3. rewrite (ST x N1 N2 N3). unfold loc2, loc1. rewrite !lookup_update_other by congruence. reflexivity.
@@ -307,9 +323,14 @@ Definition outer_body : list stmt :=
    SFor "row" (XName "group") inner_body;
    SExpr (XMethod (TName "pivoted") "append" [XPrim "builtins.tuple" [XName "outrow"]])].
 
-Variable cols : list pv.            (* the new header (computed by the untranslated part); only its length is used *)
+Variable cols : list pv.            (* the new header; only its length is used here *)
 
 Definition made (kg : value * list row) : row := build_row ks oc c2 (length cols) (fst kg) (snd kg).
+
+Lemma ovar_stable loc loc' : stable loc loc' -> lookup ovar loc' = lookup ovar loc.
+Proof.
+  intros St. apply St; intros E; subst ovar; discriminate.
+Qed.
 
 Lemma outer_loop : forall (groups : list (value * list row)) (acc : list row) loc flds,
   Forall (fun kg => Forall row_ok (snd kg)) groups -> fixed loc ->
@@ -329,10 +350,10 @@ Proof.
     assert (Hf1 : lookup "field1" loc1 = Some (PV k)).
     { unfold loc1. rewrite lookup_update_neq by reflexivity. apply lookup_update_eq. }
     assert (Hg1 : lookup "group" loc1 = Some (PList (map row_pv g))) by apply lookup_update_eq.
-    assert (Hc1 : lookup "columns" loc1 = Some (PTuple cols)) by (unfold loc1; rewrite !lookup_update_neq by reflexivity; exact Hcols).
-    assert (Hp1 : lookup "pivoted" loc1 = Some (PList (map row_pv acc))) by (unfold loc1; rewrite !lookup_update_neq by reflexivity; exact Hpiv).
+    assert (Hc1 : lookup "columns" loc1 = Some (PTuple cols)) by (unfold loc1; frame; exact Hcols).
+    assert (Hp1 : lookup "pivoted" loc1 = Some (PList (map row_pv acc))) by (unfold loc1; frame; exact Hpiv).
     assert (Hfix1 : fixed loc1).
-    { unfold fixed, loc1. rewrite !lookup_update_neq by reflexivity. repeat split; assumption. }
+    { unfold fixed, loc1. frame. repeat split; assumption. }
     set (out0 := k :: repeat VNull (length cols - 1)).
     assert (E1 : PyMini.exec call_ref prim {| locals := loc1; fields := flds |}
                    (SAssign (TName "outrow")
@@ -347,8 +368,8 @@ Proof.
     unfold outer_body at 1. rewrite exec_block_cons. fold loc1. rewrite E1. cbn [bind].
     set (loc2 := update "outrow" (PList (map PV out0)) loc1).
     assert (Hfix2 : fixed loc2).
-    { destruct Hfix1 as [A [B [C D]]]. unfold fixed, loc2. rewrite !lookup_update_neq by reflexivity. repeat split; assumption. }
-    assert (Hg2 : lookup "group" loc2 = Some (PList (map row_pv g))) by (unfold loc2; rewrite lookup_update_neq by reflexivity; exact Hg1).
+    { destruct Hfix1 as [A [B [C D]]]. unfold fixed, loc2. frame. repeat split; assumption. }
+    assert (Hg2 : lookup "group" loc2 = Some (PList (map row_pv g))) by (unfold loc2; frame; exact Hg1).
     rewrite exec_block_cons.
     rewrite (exec_for call_ref prim "row" _ _ _ {| locals := loc2; fields := flds |} (map row_pv g)
                (eval_name call_ref prim {| locals := loc2; fields := flds |} "group" _ Hg2)).
@@ -356,7 +377,7 @@ Proof.
     destruct (inner_loop g out0 loc2 flds Hg Hfix2 (lookup_update_eq _ _ _)) as [loc3 [E2 [Ho3 St3]]].
     rewrite E2. cbn [bind].
     assert (Hp3 : lookup "pivoted" loc3 = Some (PList (map row_pv acc))).
-    { rewrite St3 by discriminate. unfold loc2. rewrite lookup_update_neq by reflexivity. exact Hp1. }
+    { rewrite St3 by discriminate. unfold loc2. frame. exact Hp1. }
     rewrite exec_block_cons.
     repeat (progress (cbn [PyMini.exec PyMini.eval bind read write locals fields method_call
                            String.eqb Ascii.eqb Bool.eqb exec_block];
@@ -364,58 +385,112 @@ Proof.
     destruct (IH (acc ++ [made (k, g)])
                 (update "pivoted" (PList (map row_pv acc ++ [PTuple (map PV (fold_left step_row g out0))])) loc3) flds Hok')
       as [loc' [EL [HP HC]]].
-    + destruct Hfix2 as [A [B [C D]]]. unfold fixed. rewrite !lookup_update_neq by reflexivity.
-      rewrite !St3 by discriminate. repeat split; assumption.
-    + rewrite lookup_update_neq by reflexivity. rewrite St3 by discriminate.
-      unfold loc2. rewrite lookup_update_neq by reflexivity. exact Hc1.
+    + destruct Hfix2 as [A [B [C D]]]. unfold fixed. frame.
+      rewrite (ovar_stable _ _ St3). rewrite !St3 by discriminate. repeat split; assumption.
+    + frame. rewrite St3 by discriminate. unfold loc2. frame. exact Hc1.
     + rewrite lookup_update_eq, map_app. reflexivity.
     + exists loc'. split; [exact EL|]. split; [|exact HC]. rewrite HP. cbn [map]. rewrite <- app_assoc. reflexivity.
 Qed.
 
-(* the translated filling part of the PIVOT BY branch = the rows of Model/Pivot.v's pivot *)
-Theorem pivot_fill_src : forall (c1 : nat) (rows : list row),
+Definition fill_stmts : list stmt :=
+  [SAssign (TName "pivoted") (XList []);
+   SExpr (XMethod (TName "rows") "sort:key" [XCall (XConst (PRef 1)) [XName "col1"] None]);
+   SForUnpack ["field1"; "group"]
+     (XPrim "itertools.groupby:key" [XName "rows"; XPrim "operator.itemgetter" [XName "col1"]]) outer_body;
+   SReturn (Some (XTuple [XName "columns"; XName "pivoted"]))].
+
+(* the filling statements, from any state in which the variables they read hold the data *)
+Lemma fill_block : forall (c1 : nat) (rows : list row) loc flds,
   Forall (fun r => (c1 < length r)%nat) rows -> Forall row_ok rows ->
-  call_fun call_ref prim exec_pivot_fill
-    [PList (map row_pv rows); idx_pv c1; PTuple cols; PList (map PV ks); idx_pv c2; PInt (Z.of_nat (length oc)); PRef ko] =
-  Ok (PTuple [PTuple cols;
-              PList (map row_pv (map made (groupby c1 None (isort (on (cell c1) val_le) rows))))]).
+  lookup "rows" loc = Some (PList (map row_pv rows)) -> lookup "col1" loc = Some (idx_pv c1) ->
+  lookup "columns" loc = Some (PTuple cols) -> fixed loc ->
+  exists s',
+    exec_block call_ref prim {| locals := loc; fields := flds |} fill_stmts =
+    Ok (Ret s' (PTuple [PTuple cols;
+                        PList (map row_pv (map made (groupby c1 None (isort (on (cell c1) val_le) rows))))])).
 Proof.
-  intros c1 rows Hc1 Hok. unfold call_fun, exec_pivot_fill. cbn [f_params f_body f_gen bind_params].
-  fold inner_body. fold outer_body.
+  intros c1 rows loc flds Hc1 Hok Hrows Hcol1 Hcols [Hk [Hcol [Hn Ho]]].
   set (sorted := isort (on (cell c1) val_le) rows).
   assert (Hperm : Permutation rows sorted) by apply isort_perm.
   assert (Hc1s : Forall (fun r => (c1 < length r)%nat) sorted) by (apply (Permutation_Forall Hperm); exact Hc1).
   assert (Hoks : Forall row_ok sorted) by (apply (Permutation_Forall Hperm); exact Hok).
+  unfold fill_stmts. rewrite exec_block_cons.
+  cbn [PyMini.exec PyMini.eval bind write locals fields].
+  set (loc1 := update "pivoted" (PList []) loc).
+  assert (Hrows1 : lookup "rows" loc1 = Some (PList (map row_pv rows))) by (unfold loc1; frame; exact Hrows).
+  assert (Hcol11 : lookup "col1" loc1 = Some (idx_pv c1)) by (unfold loc1; frame; exact Hcol1).
   rewrite exec_block_cons.
-  cbn [PyMini.exec PyMini.eval bind write locals fields update String.eqb Ascii.eqb Bool.eqb].
-  rewrite exec_block_cons.
-  repeat (progress (cbn [PyMini.exec PyMini.eval bind read write locals fields lookup update do_call method_call app
+  repeat (progress (cbn [PyMini.exec PyMini.eval bind read write locals fields do_call method_call app
                          String.eqb Ascii.eqb Bool.eqb String.append partial_clo];
-                    rewrite ?Hnig)).
+                    rewrite ?Hnig, ?Hcol11, ?Hrows1)).
   change (PTuple [PRef 1; idx_pv c1]) with (partial_clo 1 [idx_pv c1]).
   rewrite prim_sort_key, (sort_tuples_src call_ref c1 rows Hc1). fold sorted.
-  cbn [bind write locals fields update String.eqb Ascii.eqb Bool.eqb].
-  set (loc1 := [("rows", PList (map row_pv sorted)); ("col1", idx_pv c1); ("columns", PTuple cols);
-                ("keys", PList (map PV ks)); ("col2", idx_pv c2); ("nother", PInt (Z.of_nat (length oc)));
-                ("other", PRef ko); ("pivoted", PList [])]).
-  set (s1 := {| locals := loc1; fields := [] |}).
+  cbn [bind write locals fields].
+  set (loc2 := update "rows" (PList (map row_pv sorted)) loc1).
+  set (s2 := {| locals := loc2; fields := flds |}).
+  assert (Hrows2 : lookup "rows" loc2 = Some (PList (map row_pv sorted))) by apply lookup_update_eq.
+  assert (Hcol12 : lookup "col1" loc2 = Some (idx_pv c1)) by (unfold loc2; frame; exact Hcol11).
   rewrite exec_block_cons.
-  rewrite (exec_for_unpack call_ref prim _ _ _ s1 s1 (map group_pv (groupby c1 None sorted))).
-  2:{ rewrite (eval_prim2 call_ref prim "itertools.groupby:key" _ _ s1 s1 s1 (PList (map row_pv sorted))
-                 (itemgetter_clo (PInt (Z.of_nat c1))) (eval_name call_ref prim s1 "rows" _ eq_refl)).
+  rewrite (exec_for_unpack call_ref prim _ _ _ s2 s2 (map group_pv (groupby c1 None sorted))).
+  2:{ rewrite (eval_prim2 call_ref prim "itertools.groupby:key" _ _ s2 s2 s2 (PList (map row_pv sorted))
+                 (itemgetter_clo (PInt (Z.of_nat c1))) (eval_name call_ref prim s2 "rows" _ Hrows2)).
       - rewrite prim_groupby, (groupby_rows_src call_ref c1 sorted Hc1s). reflexivity.
-      - rewrite (eval_prim1 call_ref prim "operator.itemgetter" _ s1 s1 _ (eval_name call_ref prim s1 "col1" _ eq_refl)).
+      - rewrite (eval_prim1 call_ref prim "operator.itemgetter" _ s2 s2 _ (eval_name call_ref prim s2 "col1" _ Hcol12)).
         unfold idx_pv. rewrite prim_itemgetter. reflexivity. }
-  destruct (outer_loop (groupby c1 None sorted) [] loc1 []) as [loc' [EL [HP HC]]].
+  destruct (outer_loop (groupby c1 None sorted) [] loc2 flds) as [loc' [EL [HP HC]]].
   - rewrite groupby_runs. apply runs_rows_forall. exact Hoks.
-  - repeat split; reflexivity.
-  - reflexivity.
-  - reflexivity.
-  - unfold s1. rewrite EL. cbn [bind]. rewrite exec_block_cons.
+  - unfold fixed, loc2, loc1. frame. repeat split; assumption.
+  - unfold loc2, loc1. frame. exact Hcols.
+  - unfold loc2, loc1. frame. apply lookup_update_eq.
+  - unfold s2. rewrite EL. cbn [bind]. rewrite exec_block_cons.
     repeat (progress (cbn [PyMini.exec PyMini.eval bind read locals fields]; rewrite ?HP, ?HC)).
-    reflexivity.
+    eexists. reflexivity.
 Qed.
 End Fill.
+
+(* ------------------------------------------------------------------ exec_pivot_fill: `other` held in a variable *)
+Section FillFn.
+Variable call_ref : nat -> list pv -> pv.
+Notation prim := (prims_exec call_ref exec_nig_single exec_nig_multi 1).
+Hypothesis Hnig : forall args, call_ref 1 args = partial_clo 1 args.
+Variables (ks : list value) (oc : list nat) (c2 ko : nat).
+(* `other` (a lambda of the untranslated part) returns the remaining columns of a row *)
+Hypothesis Hother : forall r : row, call_ref ko [row_pv r] = PTuple (map PV (other oc r)).
+Variable cols : list pv.
+
+Definition row_ok0 (r : row) : Prop := (c2 < length r)%nat /\ existsb (fun k => val_eq k (cell c2 r)) ks = true.
+
+Lemma other_call : forall loc flds (r : row), True ->
+  lookup "row" loc = Some (row_pv r) -> lookup "other" loc = Some (PRef ko) ->
+  PyMini.eval call_ref prim {| locals := loc; fields := flds |} (XCall (XName "other") [XName "row"] None) =
+  Ok ({| locals := loc; fields := flds |}, PTuple (map PV (other oc r))).
+Proof.
+  intros loc flds r _ Hr Ho.
+  repeat (progress (cbn [PyMini.eval bind read locals fields do_call]; rewrite ?Hr, ?Ho, ?Hother)). reflexivity.
+Qed.
+
+(* the translated filling part of the PIVOT BY branch = the rows of Model/Pivot.v's pivot *)
+Theorem pivot_fill_src : forall (c1 : nat) (rows : list row),
+  Forall (fun r => (c1 < length r)%nat) rows -> Forall row_ok0 rows ->
+  call_fun call_ref prim exec_pivot_fill
+    [PList (map row_pv rows); idx_pv c1; PTuple cols; PList (map PV ks); idx_pv c2; PInt (Z.of_nat (length oc)); PRef ko] =
+  Ok (PTuple [PTuple cols;
+              PList (map row_pv (map (made ks oc c2 cols) (groupby c1 None (isort (on (cell c1) val_le) rows))))]).
+Proof.
+  intros c1 rows Hc1 Hok. unfold call_fun, exec_pivot_fill. cbn [f_params f_body f_gen bind_params].
+  destruct (fill_block call_ref Hnig ks oc c2 (XCall (XName "other") [XName "row"] None) "other" (PRef ko)
+              (fun _ => True) eq_refl eq_refl eq_refl eq_refl eq_refl eq_refl eq_refl other_call cols c1 rows
+              [("rows", PList (map row_pv rows)); ("col1", idx_pv c1); ("columns", PTuple cols);
+               ("keys", PList (map PV ks)); ("col2", idx_pv c2); ("nother", PInt (Z.of_nat (length oc)));
+               ("other", PRef ko)] [] Hc1) as [s' E].
+  - apply Forall_forall. intros r Hr. rewrite Forall_forall in Hok. split; [apply (Hok r Hr)|exact I].
+  - reflexivity.
+  - reflexivity.
+  - reflexivity.
+  - repeat split; reflexivity.
+  - unfold fill_stmts, outer_body, inner_body in E. rewrite E. reflexivity.
+Qed.
+End FillFn.
 
 (* with the key list and the remaining columns of Model/Pivot.v: the rows of [pivot] *)
 From Verif Require Import Proofs.PivotProofs.
@@ -437,3 +512,229 @@ Proof.
   - apply Forall_forall. intros r Hr. rewrite Forall_forall in Hw. split; [apply (Hw r Hr)|].
     apply pivot_keys_complete. exact Hr.
 Qed.
+
+(* ================================================================== the WHOLE function execute_query
+   (Gen/SrcExec.v: exec_execute_query, translated with the rules W1-W7 of harness/vf/src_exec.py) *)
+Open Scope Z_scope.
+Lemma val_eq_int a b : val_eq (VInt a) (VInt b) = (a =? b).
+Proof.
+  unfold val_eq, eqv. rewrite !val_le_int.
+  destruct (Z.eqb_spec a b) as [->|N]; [rewrite Z.leb_refl; reflexivity|].
+  destruct (Z.leb_spec a b), (Z.leb_spec b a); try reflexivity; lia.
+Qed.
+
+Lemma pv_eqb_idx i j : pv_eqb (idx_pv i) (idx_pv j) = Nat.eqb i j.
+Proof.
+  unfold idx_pv, PInt. rewrite pv_eqb_value, val_eq_int.
+  destruct (Nat.eqb_spec i j) as [->|N]; [apply Z.eqb_refl|]. apply Z.eqb_neq. lia.
+Qed.
+
+Lemma nub_pv_values : forall l seen, nub_pv (map PV seen) (map PV l) = map PV (nub_vals seen l).
+Proof.
+  induction l as [|v t IH]; intros seen; [reflexivity|].
+  cbn [map nub_pv nub_vals].
+  assert (E : existsb (pv_eqb (PV v)) (map PV seen) = existsb (val_eq v) seen).
+  { clear. induction seen as [|s t IH]; [reflexivity|]. cbn [map existsb]. rewrite pv_eqb_value, IH. reflexivity. }
+  rewrite E. destruct (existsb (val_eq v) seen); [apply IH|].
+  cbn [map]. f_equal. rewrite <- IH, map_app. reflexivity.
+Qed.
+
+Lemma map_opt_key_single vs : map_opt key_values (map key_pv vs) = Some (map (fun v => [v]) vs).
+Proof.
+  induction vs as [|v t IH]; [reflexivity|]. cbn [map map_opt]. rewrite IH.
+  unfold key_values. destruct v; reflexivity.
+Qed.
+
+Lemma combine_app' {A B} (l1 l2 : list A) (m1 m2 : list B) : length l1 = length m1 ->
+  combine (l1 ++ l2) (m1 ++ m2) = combine l1 m1 ++ combine l2 m2.
+Proof.
+  revert m1. induction l1 as [|a t IH]; intros [|b m1] H; try discriminate; [reflexivity|].
+  cbn [app combine]. rewrite IH by (cbn in H; congruence). reflexivity.
+Qed.
+
+Section Whole.
+Variable call_ref : nat -> list pv -> pv.
+Notation prim := (prims_exec call_ref exec_nig_single exec_nig_multi 1).
+Hypothesis Hnig : forall args, call_ref 1 args = partial_clo 1 args.
+(* opaque callable 4 is the class Column: calling it builds the object *)
+Hypothesis Hcolumn : forall n d, call_ref 4 [n; d] = column_obj n d.
+
+Variable incols : list (pv * pv).                 (* name and datatype of the columns of the un-pivoted result *)
+Variables (c1 c2 : nat) (rows : list row).
+Notation ncols := (length incols).
+Notation colobjs := (map (fun nd : pv * pv => column_obj (fst nd) (snd nd)) incols).
+Definition name_of (c : nat) : pv := fst (nth c incols (PNone, PNone)).
+Definition dtype_of (c : nat) : pv := snd (nth c incols (PNone, PNone)).
+Notation oc := (other_cols ncols c1 c2).
+Notation keys := (pivot_keys c2 rows).
+Definition slash : pv := PV (VStr [47]).
+Definition first_name : pv := fstring_obj [name_of c1; slash; name_of c2].
+
+(* a header entry of Model/Pivot.v as the Column object the code builds *)
+Definition hdr_pv (h : option (value * nat)) : pv :=
+  match h with
+  | None => column_obj first_name (dtype_of c1)
+  | Some (k, c) => column_obj (if (1 <? length oc)%nat then fstring_obj [PV k; slash; name_of c] else fstring_obj [PV k])
+                              (dtype_of c)
+  end.
+
+Definition names_list : list pv :=
+  first_name :: (if (1 <? length oc)%nat
+                 then flat_map (fun k => map (fun c => fstring_obj [PV k; slash; name_of c]) oc) keys
+                 else map (fun k => fstring_obj [PV k]) keys).
+Definition dtypes_list : list pv := dtype_of c1 :: concat (repeat (map dtype_of oc) (length keys)).
+
+Lemma header_zip :
+  map (fun p : pv * pv => column_obj (fst p) (snd p)) (combine names_list dtypes_list) = map hdr_pv (pivot_header keys oc).
+Proof.
+  unfold names_list, dtypes_list, pivot_header. generalize keys as ks. intros ks.
+  destruct oc as [|c [|c' t]] eqn:Eoc.
+  - cbn [length Nat.ltb Nat.leb map]. replace (concat (repeat [] (length ks))) with (@nil pv).
+    + destruct (map (fun k : value => fstring_obj [PV k]) ks); reflexivity.
+    + induction ks as [|k ks IH]; [reflexivity|]. cbn [length repeat concat app]. exact IH.
+  - cbn [length Nat.ltb Nat.leb map combine fst snd hdr_pv]. f_equal.
+    induction ks as [|k ks IH]; [reflexivity|].
+    cbn [map length repeat concat app combine flat_map fst snd]. rewrite IH.
+    cbn [hdr_pv]. rewrite Eoc. reflexivity.
+  - assert (Hlt : (1 <? length (c :: c' :: t))%nat = true) by reflexivity.
+    rewrite Hlt. set (L := c :: c' :: t) in *. cbn [combine map fst snd hdr_pv]. f_equal.
+    induction ks as [|k ks IH]; [reflexivity|].
+    cbn [flat_map length repeat concat].
+    rewrite combine_app' by (rewrite !map_length; reflexivity).
+    rewrite !map_app, IH. f_equal.
+    rewrite combine_map, !map_map. apply map_ext. intros x. cbn [fst snd hdr_pv]. rewrite Eoc, Hlt. reflexivity.
+Qed.
+
+(* ---- primitives used by the header part *)
+Lemma prim_range n : prim "builtins.range" [PInt (Z.of_nat n)] = Ok (PList (map idx_pv (seq 0 n))).
+Proof. cbn. rewrite Nat2Z.id. reflexivity. Qed.
+Lemma prim_attr_pivots q p : prim "attr:pivots" [pivot_obj q p] = Ok p.
+Proof. reflexivity. Qed.
+Lemma prim_attr_query q p : prim "attr:query" [pivot_obj q p] = Ok q.
+Proof. reflexivity. Qed.
+Lemma prim_attr_name n d : prim "attr:name" [column_obj n d] = Ok n.
+Proof. reflexivity. Qed.
+Lemma prim_attr_datatype n d : prim "attr:datatype" [column_obj n d] = Ok d.
+Proof. reflexivity. Qed.
+Lemma prim_set_list l : prim "builtins.set" [PList l] = Ok (PList (nub_pv [] l)).
+Proof. reflexivity. Qed.
+Lemma prim_fstring parts : prim "fstring" parts = Ok (fstring_obj parts).
+Proof. reflexivity. Qed.
+Lemma prim_product x y : prim "itertools.product" [PList x; PTuple y] =
+  Ok (PList (flat_map (fun u => map (fun v => PTuple [u; v]) y) x)).
+Proof. reflexivity. Qed.
+Lemma prim_zip x y : prim "builtins.zip" [PList x; PList y] = Ok (PList (map (fun p => PTuple [fst p; snd p]) (combine x y))).
+Proof. reflexivity. Qed.
+Lemma prim_tuple' l : prim "builtins.tuple" [PList l] = Ok (PTuple l).
+Proof. reflexivity. Qed.
+
+Variable subq : pv.
+Definition qobj : pv := pivot_obj subq (PTuple [idx_pv c1; idx_pv c2]).
+
+Hypothesis Hc1 : (c1 < ncols)%nat.
+Hypothesis Hc2 : (c2 < ncols)%nat.
+Hypothesis Hwidth : Forall (fun r : row => length r = ncols) rows.
+
+Lemma oc_lt i : In i oc -> (i < ncols)%nat.
+Proof. unfold other_cols. intros H. apply filter_In in H as [H _]. apply in_seq in H. lia. Qed.
+
+Section Evals.
+Variables (loc flds : env).
+Notation s := {| locals := loc; fields := flds |}.
+
+(* othercols = [i for i in range(len(columns)) if i not in query.pivots] *)
+Lemma othercols_eval :
+  lookup "query" loc = Some qobj -> lookup "columns" loc = Some (PTuple colobjs) ->
+  PyMini.eval call_ref prim s
+    (XListComp (XName "i") "i" (XPrim "builtins.range" [XLen (XName "columns")])
+       (Some (XCompare (XName "i") [(CNotIn, XAttr (XName "query") "pivots")]))) = Ok (s, PList (map idx_pv oc)).
+Proof.
+  intros Hq Hcols.
+  rewrite (eval_listcomp_cond call_ref prim _ _ _ _ s s (map idx_pv (seq 0 ncols))).
+  - unfold other_cols.
+    rewrite (comp_res_filter idx_pv _ (fun i => negb (Nat.eqb i c1) && negb (Nat.eqb i c2)) idx_pv);
+      [reflexivity|].
+    intros i _. unfold comp_item.
+    repeat (progress (cbn [PyMini.eval bind read write locals fields snd compare1 existsb String.append];
+                      rewrite ?lookup_update_eq, ?(lookup_update_neq "query" "i") by reflexivity;
+                      rewrite ?Hq)).
+    unfold qobj at 1, pivot_obj at 1. cbn [bind].
+    change (prim "attr:pivots" [qobj]) with (Ok (PTuple [idx_pv c1; idx_pv c2])).
+    cbn [bind existsb snd]. rewrite !pv_eqb_idx.
+    destruct (Nat.eqb i c1), (Nat.eqb i c2); reflexivity.
+  - rewrite (eval_prim1 call_ref prim "builtins.range" (XLen (XName "columns")) s s (PInt (Z.of_nat ncols))).
+    + rewrite prim_range. reflexivity.
+    + cbn [PyMini.eval read locals bind]. rewrite Hcols. cbn [bind]. rewrite map_length. reflexivity.
+Qed.
+
+(* {row[col2] for row in rows} *)
+Definition keyset_expr : expr :=
+  XPrim "builtins.set" [XListComp (XIndex (XName "row") (XName "col2")) "row" (XName "rows") None].
+
+Lemma keyset_eval :
+  lookup "rows" loc = Some (PList (map row_pv rows)) -> lookup "col2" loc = Some (idx_pv c2) ->
+  PyMini.eval call_ref prim s keyset_expr = Ok (s, PList (map PV (nub_vals [] (map (cell c2) rows)))).
+Proof.
+  intros Hrows Hcol2. unfold keyset_expr.
+  rewrite (eval_prim1 call_ref prim "builtins.set" _ s s (PList (map PV (map (cell c2) rows)))).
+  - rewrite prim_set_list. rewrite (nub_pv_values _ []). reflexivity.
+  - rewrite (eval_listcomp call_ref prim _ _ _ s s _ (eval_name call_ref prim s "rows" _ Hrows)).
+    rewrite (map_res_map_ok' row_pv _ (fun r => PV (cell c2 r))); [rewrite map_map; reflexivity|].
+    intros r Hr. cbn [write locals fields].
+    rewrite (eval_index_tuple call_ref prim _ _ _ _ _ (map PV r) (Z.of_nat c2)
+               (eval_name call_ref prim {| locals := update "row" (row_pv r) loc; fields := flds |} "row" (row_pv r)
+                  (lookup_update_eq _ _ _))
+               (eval_name call_ref prim {| locals := update "row" (row_pv r) loc; fields := flds |} "col2" (idx_pv c2)
+                  ltac:(cbn [locals]; rewrite lookup_update_neq by reflexivity; exact Hcol2))).
+    rewrite index_row; [reflexivity|]. rewrite Forall_forall in Hwidth. rewrite (Hwidth r Hr). exact Hc2.
+Qed.
+
+(* keys = sorted({..}, key=lambda value: value if value is not None else NULL) *)
+Lemma keys_eval :
+  lookup "rows" loc = Some (PList (map row_pv rows)) -> lookup "col2" loc = Some (idx_pv c2) ->
+  PyMini.eval call_ref prim s
+    (XPrim "sorted_by" [keyset_expr;
+        XListComp (XIfExp (XCompare (XName "value") [(CIsNot, XConst PNone)]) (XName "value") (XConst (PRef 0)))
+          "value" keyset_expr None]) = Ok (s, PList (map PV keys)).
+Proof.
+  intros Hrows Hcol2. set (N := nub_vals [] (map (cell c2) rows)).
+  rewrite (eval_prim2 call_ref prim "sorted_by" _ _ s s s (PList (map PV N)) (PList (map key_pv N))
+             (keyset_eval Hrows Hcol2)).
+  - cbn [prims_exec prims_hi String.eqb Ascii.eqb Bool.eqb prims_base].
+    rewrite map_opt_key_single, !map_length, Nat.eqb_refl, combine_map.
+    rewrite (py_sort_map (fun v => ([v], PV v)) (on (fun v => [v]) tuple_le) (on fst tuple_le) false) by reflexivity.
+    rewrite map_map. cbn [snd bind]. unfold py_sort, pivot_keys. fold N.
+    rewrite (isort_ext _ (on (fun v : value => [v]) tuple_le) val_le N); [reflexivity|].
+    intros x y. unfold on. apply tuple_le_single.
+  - rewrite (eval_listcomp call_ref prim _ _ _ s s _ (keyset_eval Hrows Hcol2)).
+    rewrite (map_res_map_ok' PV _ key_pv); [reflexivity|].
+    intros v _. unfold key_pv.
+    destruct v;
+      repeat (progress (cbn [PyMini.eval bind read write locals fields snd compare1 pv_is_none PNone negb pv_truthy
+                             PBool truthy is_null]; rewrite ?lookup_update_eq)); reflexivity.
+Qed.
+
+(* other(x) = tuple(x[i] for i in othercols), x a variable holding a tuple *)
+Lemma other_eval (x : string) (items : list pv) :
+  String.eqb x "i" = false ->
+  lookup x loc = Some (PTuple items) -> lookup "othercols" loc = Some (PList (map idx_pv oc)) ->
+  (forall i, In i oc -> (i < length items)%nat) ->
+  PyMini.eval call_ref prim s
+    (XPrim "builtins.tuple" [XListComp (XIndex (XName x) (XName "i")) "i" (XName "othercols") None]) =
+  Ok (s, PTuple (map (fun i => nth i items PNone) oc)).
+Proof.
+  intros Hx Hlx Hoc Hlt.
+  rewrite (eval_prim1 call_ref prim "builtins.tuple" _ s s (PList (map (fun i => nth i items PNone) oc))).
+  - rewrite prim_tuple'. reflexivity.
+  - rewrite (eval_listcomp call_ref prim _ _ _ s s _ (eval_name call_ref prim s "othercols" _ Hoc)).
+    rewrite (map_res_map_ok' idx_pv _ (fun i => nth i items PNone)); [reflexivity|].
+    intros i Hi. cbn [write locals fields].
+    rewrite (eval_index_tuple call_ref prim _ _ _ _ _ items (Z.of_nat i)
+               (eval_name call_ref prim {| locals := update "i" (idx_pv i) loc; fields := flds |} x (PTuple items)
+                  ltac:(cbn [locals]; rewrite lookup_update_neq by exact Hx; exact Hlx))
+               (eval_name call_ref prim {| locals := update "i" (idx_pv i) loc; fields := flds |} "i" (idx_pv i)
+                  (lookup_update_eq _ _ _))).
+    rewrite (index_at_nat items i PNone (Hlt i Hi)). reflexivity.
+Qed.
+End Evals.
+End Whole.
